@@ -114,6 +114,67 @@ func VAssignOf(k lexer.TokenKind) AssignOperator {
 	return BitXorAssignOperatorKind
 }
 
+// VTokOfInfix / VTokOfAssign: the token that denotes an operator (inverse of
+// VInfixOf / VAssignOf).
+func VTokOfInfix(op InfixOperator) lexer.TokenKind {
+	switch op {
+	case PlusInfixOperator:
+		return lexer.Plus
+	case MinusInfixOperator:
+		return lexer.Minus
+	case MultiplyInfixOperator:
+		return lexer.Multiply
+	case DivideInfixOperator:
+		return lexer.Divide
+	case ModuloInfixOperator:
+		return lexer.Modulo
+	case PowerInfixOperator:
+		return lexer.Power
+	case ShiftLeftInfixOperator:
+		return lexer.ShiftLeft
+	case ShiftRightInfixOperator:
+		return lexer.ShiftRight
+	case BitOrInfixOperator:
+		return lexer.BitOr
+	case BitAndInfixOperator:
+		return lexer.BitAnd
+	case BitXorInfixOperator:
+		return lexer.BitXor
+	case LogicalOrInfixOperator:
+		return lexer.Or
+	case LogicalAndInfixOperator:
+		return lexer.And
+	case EqualInfixOperator:
+		return lexer.Equal
+	case NotEqualInfixOperator:
+		return lexer.NotEqual
+	case LessThanInfixOperator:
+		return lexer.LessThan
+	case LessThanEqualInfixOperator:
+		return lexer.LessThanEqual
+	case GreaterThanInfixOperator:
+		return lexer.GreaterThan
+	}
+	return lexer.GreaterThanEqual
+}
+
+// VRootLeft is the left binding power of the root operator of an expression
+// tree, 256 for every expression that is a single operand (atoms, grouped,
+// prefix, call, index, member, block-like and literal expressions).
+func VRootLeft(e Expression) int {
+	switch x := e.(type) {
+	case InfixExpression:
+		return lexer.VLeft(VTokOfInfix(x.Operator))
+	case AssignExpression:
+		return lexer.VLeft(lexer.Assign)
+	case CastExpression:
+		return lexer.VLeft(lexer.As)
+	case RangeLiteralExpression:
+		return lexer.VLeft(lexer.DoubleDot)
+	}
+	return 256
+}
+
 /*@ func TokenAsInfixOperator
     serves C05, C07
     requires VIsInfixTok(from)
